@@ -16,8 +16,10 @@ EXPLANATION = (
     "one alternative (chart_parse unpacks the alternatives with tuple(*alts)): a start symbol with several alternatives is redirected to the auxiliary "
     "single-rule symbol which prune_tree strips again; (R3) coalescing only merges adjacent terminal children and keeps nonterminal children in order; "
     "(R4) ISLaSolver.parse builds the parser from a copy of its grammar, unwraps the <start> wrapper exactly when another nonterminal was requested and "
-    "re-raises SyntaxError unchanged (shared with C18). NOT decided: correctness of the Earley chart (prediction, nullable handling, completion) and of "
-    "forest extraction - these are properties of chart contents per (grammar, string)."
+    "re-raises SyntaxError unchanged (shared with C18); (R5) the nullable set is the least fixed point over all productions; (R6) scan / complete / predict "
+    "(incl. the nullable skip), the chart driver and the item operations have their textbook shape (any other shape is an ANALYSIS-ERROR, three recognised "
+    "wrong shapes are violations). NOT decided: that the textbook algorithm as a whole is complete for every grammar, and forest extraction - these are "
+    "properties of chart contents per (grammar, string)."
 )
 
 
@@ -111,7 +113,97 @@ def rule_r5(ctx):
     ctx.check("while True" in t and "if str(arg_) == sarg: return arg" in t.replace("\n", " "), "R5-nullable-fixpoint", f"{PARSER}:fixpoint", "iterate until unchanged", site(fp), "fixpoint helper changed", "until stable")
 
 
+def _norm(node) -> str:
+    return " ".join(src(node).split())
+
+
+def rule_r6(ctx):
+    """The three Earley operations and the chart driver have their textbook shape (necessary for 'accepts exactly the language'):
+    scan advances only over the matching input letter, complete advances exactly the items waiting for the completed nonterminal in its start column,
+    predict adds every alternative at dot 0 in the current column and skips nullable nonterminals, the driver picks the operation by the symbol after the dot."""
+    def fn(name):
+        return ctx.repo.func(PARSER, name, "C10.R6")
+
+    # scan
+    f = fn("EarleyParser.scan")
+    c = f"{PARSER}:EarleyParser.scan"
+    adds = [x for x in calls_in(f) if call_name(x) == "col.add"]
+    if len(adds) != 1 or src(adds[0].args[0]) != "state.advance()":
+        raise Unrecognised("C10.R6", c, "scan does not add state.advance() exactly once")
+    if has_fact(facts(adds[0]), "letter == col.letter") or has_fact(facts(adds[0]), "col.letter == letter"):
+        ctx.ok("R6-scan", c, "advance only over the matching letter", site(adds[0]), "letter == col.letter")
+    elif not facts(adds[0]):
+        ctx.viol("R6-scan", c, "advance only over the matching letter", site(adds[0]), "scan advances the item without comparing the expected terminal with the input letter: every string of the right length is accepted")
+    else:
+        raise Unrecognised("C10.R6", c, f"scan guard {[x.text for x in facts(adds[0])]} not understood")
+    # complete
+    f = fn("EarleyParser.earley_complete")
+    c = f"{PARSER}:EarleyParser.earley_complete"
+    ps = [a for a in walk_local(f) if isinstance(a, ast.Assign) and src(a.targets[0]) == "parent_states"]
+    if len(ps) != 1 or not isinstance(ps[0].value, ast.ListComp) or len(ps[0].value.generators) != 1:
+        raise Unrecognised("C10.R6", c, "parent_states comprehension not found")
+    g = ps[0].value.generators[0]
+    ctx.check(src(g.iter) == "state.s_col.states", "R6-complete", c, "parents are looked up in the START column of the completed item", site(g.iter), f"parents taken from `{src(g.iter)}`", "state.s_col.states")
+    conds = [_norm(i) for i in g.ifs]
+    if conds == ["st.at_dot() == state.name"] or conds == ["state.name == st.at_dot()"]:
+        ctx.ok("R6-complete", c, "only items waiting for the completed nonterminal advance", site(g), conds[0])
+    elif not conds:
+        ctx.viol("R6-complete", c, "only items waiting for the completed nonterminal advance", site(g), "every item of the start column is advanced on completion, whatever symbol it waits for")
+    else:
+        raise Unrecognised("C10.R6", c, f"completion filter {conds} not understood")
+    loops = [n for n in walk_local(f) if isinstance(n, ast.For) and src(n.iter) == "parent_states"]
+    ok = len(loops) == 1 and [_norm(x) for x in loops[0].body] == ["col.add(st.advance())"]
+    ctx.check(ok, "R6-complete", c, "each waiting parent is advanced into the current column", site(f), "loop over parent_states must add st.advance() to col", "col.add(st.advance())")
+    dl = fn("EarleyParser.complete")
+    ctx.check(_norm(dl.body[-1]) == "return self.earley_complete(col, state)", "R6-complete", f"{PARSER}:EarleyParser.complete", "complete delegates with (col, state)", site(dl), f"found {_norm(dl.body[-1])}", "delegation")
+    # predict
+    f = fn("EarleyParser.predict")
+    c = f"{PARSER}:EarleyParser.predict"
+    loops = [n for n in walk_local(f) if isinstance(n, ast.For)]
+    ok = len(loops) == 1 and src(loops[0].iter) == "self.cgrammar[sym]" and [_norm(x) for x in loops[0].body] == [f"col.add(State(sym, tuple({src(loops[0].target)}), 0, col))"]
+    if not ok:
+        raise Unrecognised("C10.R6", c, "prediction loop not in the recognised shape (every alternative of sym at dot 0, started in the current column)")
+    ctx.ok("R6-predict", c, "every alternative predicted at dot 0 in the current column", site(loops[0]), "State(sym, tuple(alt), 0, col)")
+    eps = [n for n in f.body if isinstance(n, ast.If) and _norm(n.test) == "sym in self.epsilon"]
+    if len(eps) == 1 and [_norm(x) for x in eps[0].body] == ["col.add(state.advance())"] and not eps[0].orelse:
+        ctx.ok("R6-predict", c, "a nullable nonterminal is skipped at prediction time", site(eps[0]), "if sym in self.epsilon: col.add(state.advance())")
+    elif not [n for n in f.body if isinstance(n, ast.If)]:
+        ctx.viol("R6-predict", c, "a nullable nonterminal is skipped at prediction time", site(f),
+                 "predict no longer advances the predicting item over a nullable nonterminal: a completion of the empty derivation that happened earlier in the same column is missed and words that need it are rejected")
+    else:
+        raise Unrecognised("C10.R6", c, "nullable handling in predict not understood")
+    init = fn("EarleyParser.__init__")
+    ok = any(_norm(x) == "self.epsilon = nullable(self.cgrammar)" for x in init.body)
+    ctx.check(ok, "R6-predict", f"{PARSER}:EarleyParser.__init__", "epsilon = nullable set of the canonical grammar", site(init), "self.epsilon must be nullable(self.cgrammar)", "nullable(self.cgrammar)")
+    # driver
+    f = fn("EarleyParser.fill_chart")
+    c = f"{PARSER}:EarleyParser.fill_chart"
+    t = _norm(f)
+    want = ("for i, col in enumerate(chart): for state in col.states: if state.finished(): self.complete(col, state) else: sym = state.at_dot() "
+            "if sym in self.cgrammar: self.predict(col, sym, state) else: if i + 1 >= len(chart): continue self.scan(chart[i + 1], state, sym)")
+    if want not in t:
+        raise Unrecognised("C10.R6", c, "chart driver not in the recognised shape")
+    ctx.ok("R6-driver", c, "finished -> complete; nonterminal -> predict; terminal -> scan into the next column", site(f), "recognised driver")
+    f = fn("EarleyParser.chart_parse")
+    c = f"{PARSER}:EarleyParser.chart_parse"
+    t = _norm(f)
+    ok = "chart = [Column(i, tok) for i, tok in enumerate([None, *words])]" in t and "chart[0].add(State(start, alt, 0, chart[0]))" in t and "return self.fill_chart(chart)" in t
+    if not ok:
+        raise Unrecognised("C10.R6", c, "chart initialisation not in the recognised shape")
+    ctx.ok("R6-driver", c, "one column per input letter plus column 0 holding the start item", site(f), "recognised initialisation")
+    # items
+    for q, want_body in (("Item.finished", "return self.dot >= len(self.expr)"), ("Item.at_dot", "return self.expr[self.dot] if self.dot < len(self.expr) else None"),
+                         ("State.advance", "return State(self.name, self.expr, self.dot + 1, self.s_col)"), ("State._t", "return (self.name, self.expr, self.dot, self.s_col.index)")):
+        g_ = fn(q)
+        ctx.check(_norm(g_.body[-1]) == want_body, "R6-items", f"{PARSER}:{q}", want_body, site(g_), f"found `{_norm(g_.body[-1])}`", "textbook item operation")
+    add = fn("Column.add")
+    t = _norm(add)
+    ok = "if state in self._unique: return self._unique[state]" in t and "self.states.append(state)" in t and "state.e_col = self" in t
+    ctx.check(ok, "R6-items", f"{PARSER}:Column.add", "items unique per column; end column recorded", site(add), "Column.add changed", "dedup + e_col")
+
+
 def run(ctx) -> str:
+    ctx.guarded("R6", lambda: rule_r6(ctx))
     ctx.guarded("R5", lambda: rule_r5(ctx))
     ctx.guarded("R1", lambda: rule_r1(ctx))
     ctx.guarded("R2", lambda: rule_r2(ctx))
